@@ -261,6 +261,115 @@ def scan_vs_loop(case, ctx):
 
 
 # ----------------------------------------------------------------------------
+class CarryMod(nnx.Module):
+  """Small module threaded through nnx.scan as (part of) the Carry."""
+
+  def __init__(self, scale, extra):
+    self.scale = nnx.Param(jnp.asarray(scale, jnp.float32))
+    self.acc = nnx.BatchStat(jnp.zeros((), jnp.float32))
+    if extra:
+      self.steps = Count(jnp.zeros((), jnp.float32))
+
+
+def carry_case():
+  return st.fixed_dictionaries({
+      'mods': st.lists(st.tuples(st.integers(-3, 3), st.booleans()),
+                       min_size=1, max_size=3),
+      'container': st.sampled_from(['tuple', 'list', 'dict', 'bare']),
+      'with_array': st.booleans(), 'n': st.integers(1, 4),
+      'reverse': st.booleans(), 'seed': st.integers(0, 2**16)})
+
+
+@clause('scan_module_carry', strategy=carry_case, quick=120, thorough=5000,
+        quick_shards=8, thorough_shards=16, shrink=False,
+        rule='nnx.scan whose Carry argument is a module or a tuple / list / '
+        'dict of 1-3 modules of different structure (optionally with an '
+        'array): every step reads and updates each carried module; after the '
+        'scan each of the caller\'s modules holds the state the Python loop '
+        'leaves in its twin, the returned carry has the same structure and '
+        'values, and the stacked outputs match; non-trivial = >=2 carried '
+        'modules and n>=2')
+def scan_module_carry(case, ctx):
+  n = case['n']
+  rng = np.random.default_rng(case['seed'])
+  xs = rng.integers(-3, 4, size=(n,)).astype(np.float32)
+  kind = case['container']
+  specs = list(case['mods']) if kind != 'bare' else list(case['mods'])[:1]
+  def build():
+    ms = [CarryMod(float(sc), ex) for sc, ex in specs]
+    arr = jnp.asarray(1.0, jnp.float32) if case['with_array'] and \
+        kind != 'bare' else None
+    if kind == 'bare':
+      return ms, ms[0]
+    items = list(ms) + ([arr] if arr is not None else [])
+    if kind == 'tuple':
+      return ms, tuple(items)
+    if kind == 'list':
+      return ms, list(items)
+    return ms, {f'k{i}': it for i, it in enumerate(items)}
+  def elems(c):
+    if kind == 'bare':
+      return [c]
+    return list(c.values()) if isinstance(c, dict) else list(c)
+  def step(carry, x):
+    es = elems(carry)
+    y = x
+    for i, e in enumerate(es):
+      if isinstance(e, CarryMod):
+        e.acc.value = e.acc.value * 0.5 + x * e.scale.value + i
+        if hasattr(e, 'steps'):
+          e.steps.value = e.steps.value + 1.0
+        y = y + e.acc.value
+    new = []
+    for e in es:
+      new.append(e if isinstance(e, CarryMod) else e * 0.5 + y)
+    if kind == 'bare':
+      out = new[0]
+    elif kind == 'tuple':
+      out = tuple(new)
+    elif kind == 'list':
+      out = list(new)
+    else:
+      out = {f'k{i}': it for i, it in enumerate(new)}
+    return out, y
+  # reference loop on twins
+  ms_ref, c_ref = build()
+  ys = [None] * n
+  order = range(n - 1, -1, -1) if case['reverse'] else range(n)
+  for i in order:
+    c_ref, y = step(c_ref, jnp.asarray(xs[i]))
+    ys[i] = np.asarray(y)
+  ms, c0 = build()
+  with sut('nnx.scan (module carry)'):
+    f = nnx.scan(step, in_axes=(nnx.Carry, 0), out_axes=(nnx.Carry, 0),
+                 length=n, reverse=case['reverse'])
+    c_s, y_s = f(c0, jnp.asarray(xs))
+  require(close(y_s, np.stack(ys)), lambda: f'stacked outputs '
+          f'{np.asarray(y_s)} differ from the loop {np.stack(ys)}')
+  def st_of(m):
+    return {k: float(np.asarray(getattr(m, k).value))
+            for k in ('scale', 'acc', 'steps') if hasattr(m, k)}
+  for i, (m, mr) in enumerate(zip(ms, ms_ref)):
+    require(st_of(m) == st_of(mr), lambda: f'carried module #{i} of the '
+            f'caller ends with {st_of(m)}, the Python loop leaves '
+            f'{st_of(mr)} in its twin')
+  es, er = elems(c_s), elems(c_ref)
+  require(type(c_s) is type(c_ref) and len(es) == len(er), lambda: 'returned '
+          f'carry is a {type(c_s).__name__} of {len(es)}, loop '
+          f'{type(c_ref).__name__} of {len(er)}')
+  for i, (a, b) in enumerate(zip(es, er)):
+    if isinstance(b, CarryMod):
+      require(isinstance(a, CarryMod) and st_of(a) == st_of(b), lambda: 
+              f'returned carry element #{i} holds '
+              f'{st_of(a) if isinstance(a, CarryMod) else a}, loop {st_of(b)}')
+    else:
+      require(close(a, b), f'returned carry array #{i} differs from the loop')
+  ctx.note(labels=[kind, f'mods{len(specs)}', f'n{n}',
+                   'rev' if case['reverse'] else 'fwd'],
+           nontrivial=len(specs) >= 2 and n >= 2)
+
+
+# ----------------------------------------------------------------------------
 def grad_case():
   return st.fixed_dictionaries({
       'd': st.integers(1, 3),
